@@ -354,6 +354,12 @@ def families(tier):
                     bounds=f"{which}, {'linear' if linear else 'step'}; pattern PPPRR; symbolic gaps >= 1 us",
                     must_cover=["pull:ok"], query_timeout_ms=8000))
     for f in fams:
+        if q:
+            # z3 occasionally answers 'unknown' for a path condition mixing the symbolic step position with integer
+            # times within the time limit (seen once with exploration seed 1): such paths are counted
+            # (paths_inconclusive_solver_unknown) and are outside the claim, exactly as in the thorough tier
+            f["allow_inconclusive_paths"] = True
+            f["bounds"] += "; paths whose condition z3 cannot decide within the time limit are counted and excluded"
         if not q:
             # thorough tier (5 publications / symbolic gaps): nonlinear obligations go to a fresh solver so that the
             # incremental solver deciding branch feasibility is not slowed down by them (see symx.Ctx.check)
